@@ -29,14 +29,20 @@ class AnalysisError(Exception):
 
 
 class Module:
-    def __init__(self, name: str, path: str, src: str):
+    def __init__(self, name: str, path: str, src: str, tree: ast.AST | None = None, mutable_attrs=None):
         self.name = name
         self.path = path
         self.src = src
         try:
-            self.tree = ast.parse(src, filename=path)
+            self.tree = tree if tree is not None else ast.parse(src, filename=path)
         except SyntaxError as e:  # a tree that does not parse cannot be analysed
             raise AnalysisError(f"{path}: does not parse: {e}") from e
+        # view the tree modulo local renaming / new wrappers / hoisted pure locals / keyword order (hsa/align.py)
+        self.normalised: dict = {}
+        if os.environ.get("HSA_NO_ALIGN") != "1":
+            from . import align
+
+            self.normalised = align.normalise(name, self.tree, mutable_attrs)
         self.parents: dict[ast.AST, ast.AST] = {}
         self.defs: dict[str, ast.AST] = {}
         self.qual_of: dict[ast.AST, str] = {}
@@ -124,6 +130,7 @@ class Repo:
         if not os.path.isdir(pkg):
             raise AnalysisError(f"{pkg}: package directory not found")
         overrides = overrides or {}
+        srcs: dict[str, tuple[str, str]] = {}
         for fn in sorted(os.listdir(pkg)):
             if not fn.endswith(".py"):
                 continue
@@ -135,7 +142,18 @@ class Repo:
                 with open(os.path.join(pkg, fn), encoding="utf-8") as f:
                     src = f.read()
             self.digest.update(name.encode() + b"\0" + src.encode() + b"\0")
-            self.modules[name] = Module(name, path, src)
+            srcs[name] = (path, src)
+        trees = {}
+        for name, (path, src) in srcs.items():
+            try:
+                trees[name] = ast.parse(src, filename=path)
+            except SyntaxError as e:
+                raise AnalysisError(f"{path}: does not parse: {e}") from e
+        from . import align
+
+        mutable = align.mutable_attributes(trees.values())
+        for name, (path, src) in srcs.items():
+            self.modules[name] = Module(name, path, src, trees[name], mutable)
         self._const_cache: dict[tuple[str, str], object] = {}
 
     def mod(self, name: str) -> Module:
